@@ -19,22 +19,43 @@ import (
 	"perun.network/go-perun/wallet"
 	"perun.network/go-perun/wire"
 	"verif/engine/report"
-	"verif/harness/fx"
 )
 
-const nChan = 3
+const nChan = 4
 
 // Channels: c1 ledger channel with peers (p0,p1); c2 sub-channel of c1 (same peers, created
-// with c1's id as parent); c3 ledger channel with peers (p0,p3). p0 is the own address.
-var cParams = [nChan]*channel.Params{
-	fx.Params(2, channel.NoApp(), 101, true, false),
-	fx.Params(2, channel.NoApp(), 102, false, false),
-	fx.Params(2, channel.NoApp(), 103, true, false),
-}
+// with c1's id as parent); c3 ledger channel with peers (p0,p3); c4 ledger channel with 10
+// participants and 10 peers (p0,p1,p3,p4..p10: it shares a peer with every other channel).
+// p0 is the own address. 10 participants is the first number at which the width of the
+// zero-padded signature keys could change; c4's nonce is the first one from 104 on that puts
+// its id strictly between the smallest and the largest id of c1..c3, so that in key order
+// (the order RestoreAll and the table iterators walk) channels lie before AND behind it.
+var cParams = func() (p [nChan]*channel.Params) {
+	p[0] = mkParams(2, channel.NoApp(), 101, true)
+	p[1] = mkParams(2, channel.NoApp(), 102, false)
+	p[2] = mkParams(2, channel.NoApp(), 103, true)
+	lo, hi := p[0].ID(), p[0].ID()
+	for _, q := range p[1:3] {
+		id := q.ID()
+		if bytes.Compare(id[:], lo[:]) < 0 {
+			lo = id
+		}
+		if bytes.Compare(id[:], hi[:]) > 0 {
+			hi = id
+		}
+	}
+	for nonce := int64(104); ; nonce++ {
+		p[3] = mkParams(maxParts, channel.NoApp(), nonce, true)
+		id := p[3].ID()
+		if bytes.Compare(lo[:], id[:]) < 0 && bytes.Compare(id[:], hi[:]) < 0 {
+			return p
+		}
+	}
+}()
 
-var cPeerIdx = [nChan][]int{{0, 1}, {0, 1}, {0, 3}}
+var cPeerIdx = [nChan][]int{{0, 1}, {0, 1}, {0, 3}, {0, 1, 3, 4, 5, 6, 7, 8, 9, 10}}
 
-var allPeers = []int{0, 1, 3}
+var allPeers = []int{0, 1, 3, 4, 5, 6, 7, 8, 9, 10}
 
 func cPeers(i int) []map[wallet.BackendID]wire.Address {
 	var out []map[wallet.BackendID]wire.Address
@@ -42,6 +63,15 @@ func cPeers(i int) []map[wallet.BackendID]wire.Address {
 		out = append(out, peerAddr[p])
 	}
 	return out
+}
+
+func hasPeer(i, p int) bool {
+	for _, q := range cPeerIdx[i] {
+		if q == p {
+			return true
+		}
+	}
+	return false
 }
 
 func cParent(i int) *channel.ID {
@@ -63,16 +93,25 @@ const (
 var stNames = []string{"absent", "created", "advanced", "staged", "removed"}
 
 type cworld struct {
-	b  *backing
-	pr *keyvalue.PersistRestorer
-	sm [nChan]*channel.StateMachine
-	pm [nChan]persistence.StateMachine
-	st [nChan]int
+	b     *backing
+	pr    *keyvalue.PersistRestorer
+	sm    [nChan]*channel.StateMachine
+	pm    [nChan]persistence.StateMachine
+	st    [nChan]int
+	c4Idx int // own index in the 10-party channel (0 or 9); 0 in c1..c3
 }
 
-func newCWorld(backend string) *cworld {
+func newCWorld(backend string, c4Idx int) *cworld {
 	b := openBacking(backend)
-	return &cworld{b: b, pr: keyvalue.NewPersistRestorer(b.db)}
+	return &cworld{b: b, pr: keyvalue.NewPersistRestorer(b.db), c4Idx: c4Idx}
+}
+
+// own is the own participant index in channel i.
+func (w *cworld) own(i int) int {
+	if i == 3 {
+		return w.c4Idx
+	}
+	return 0
 }
 
 func (w *cworld) close() { w.b.close() }
@@ -131,7 +170,7 @@ func (w *cworld) do(o cop) (err error) {
 	}
 	switch o.kind {
 	case "Create":
-		sm, err := channel.NewStateMachine(fx.AccMap(0), *cParams[i].Clone())
+		sm, err := channel.NewStateMachine(accMap(w.own(i)), *cParams[i].Clone())
 		if err != nil {
 			return err
 		}
@@ -142,13 +181,22 @@ func (w *cworld) do(o cop) (err error) {
 		w.st[i] = stCreated
 	case "Advance":
 		m := &w.pm[i]
-		if err := m.Init(ctx, fx.Alloc([]int64{5, 5}), channel.NoData()); err != nil {
+		n := len(cParams[i].Parts)
+		if err := m.Init(ctx, evenAlloc(n), channel.NoData()); err != nil {
 			return err
 		}
 		if _, err := m.Sig(ctx); err != nil {
 			return err
 		}
-		if err := first(m.AddSig(ctx, 1, fx.Sig(1, w.sm[i].StagingState())), m.EnableInit(ctx)); err != nil {
+		for j := 0; j < n; j++ {
+			if j == w.own(i) {
+				continue
+			}
+			if err := m.AddSig(ctx, channel.Index(j), sigOf(j, w.sm[i].StagingState())); err != nil {
+				return err
+			}
+		}
+		if err := m.EnableInit(ctx); err != nil {
 			return err
 		}
 		w.st[i] = stAdvanced
@@ -295,7 +343,7 @@ func (w *cworld) check(op *cop, prev []snap) (out []cviol) {
 	for _, p := range allPeers {
 		var want []snap
 		for i := 0; i < nChan; i++ {
-			if w.live(i) && (cPeerIdx[i][0] == p || cPeerIdx[i][1] == p) {
+			if w.live(i) && hasPeer(i, p) {
 				want = append(want, w.liveSnap(i))
 			}
 		}
@@ -379,40 +427,62 @@ type c11Replay struct {
 	Check   string      `json:"check"`
 	Tier    string      `json:"tier"`
 	Backend string      `json:"backend"`
+	C4Idx   int         `json:"c4_idx"` // own index in the 10-party channel c4
 	History []string    `json:"history"`
 	Op      string      `json:"op"`
 	CrashK  interface{} `json:"crash_k"`
 }
 
-// cwalk replays a history, evaluating the oracle after every step; origin[clause] is the kind
-// of the operation after which the clause first failed (and has failed since): a later step
-// that merely inherits the failure is attributed to it. Returns the world, the origins and
-// the violations of the last step.
-func cwalk(backend string, alpha []cop, h []int, trace func(string)) (*cworld, map[string]string, []cviol, error) {
-	w := newCWorld(backend)
+// cstep runs one operation on w and evaluates the oracle. org maps a clause to the kind of
+// the operation after which it first failed (and has failed since): a later step that merely
+// inherits the failure is attributed to it. org is updated in place.
+func cstep(w *cworld, o cop, org map[string]string) ([]cviol, error) {
+	prev := make([]snap, nChan)
+	for i := range prev {
+		prev[i] = restoreChannel(w.pr, cParams[i].ID())
+	}
+	if err := w.do(o); err != nil {
+		return nil, fmt.Errorf("%s failed: %v", o.name(), err)
+	}
+	viols := w.check(&o, prev)
+	now := map[string]bool{}
+	for _, v := range viols {
+		now[v.clause] = true
+		if org[v.clause] == "" {
+			org[v.clause] = o.kind
+		}
+	}
+	for c := range org {
+		if !now[c] {
+			delete(org, c)
+		}
+	}
+	return viols, nil
+}
+
+// cwalk replays a history on a fresh store. With every = true the oracle is evaluated after
+// each step (replay mode; the origins are built up from nothing). Otherwise the steps before
+// the last one are only executed - the oracle judged each of them when it was the last step
+// of its own transition - and org0 must be the origins of the state reached by h[:len(h)-1].
+// Returns the world, the origins after the last step and its violations.
+func cwalk(backend string, c4Idx int, alpha []cop, h []int, org0 map[string]string, every bool, trace func(string)) (*cworld, map[string]string, []cviol, error) {
+	w := newCWorld(backend, c4Idx)
 	org := map[string]string{}
+	for c, k := range org0 {
+		org[c] = k
+	}
 	var last []cviol
-	for _, k := range h {
+	for n, k := range h {
 		o := alpha[k]
-		prev := make([]snap, nChan)
-		for i := range prev {
-			prev[i] = restoreChannel(w.pr, cParams[i].ID())
-		}
-		if err := w.do(o); err != nil {
-			return w, org, nil, fmt.Errorf("%s failed: %v", o.name(), err)
-		}
-		last = w.check(&o, prev)
-		now := map[string]bool{}
-		for _, v := range last {
-			now[v.clause] = true
-			if org[v.clause] == "" {
-				org[v.clause] = o.kind
+		if !every && n < len(h)-1 {
+			if err := w.do(o); err != nil {
+				return w, org, nil, fmt.Errorf("%s failed: %v", o.name(), err)
 			}
+			continue
 		}
-		for c := range org {
-			if !now[c] {
-				delete(org, c)
-			}
+		var err error
+		if last, err = cstep(w, o, org); err != nil {
+			return w, org, nil, err
 		}
 		if trace != nil {
 			var cl []string
@@ -434,58 +504,79 @@ func cnames(alpha []cop, h []int) []string {
 	return out
 }
 
-func c11Run(t *testing.T, res *report.Result) {
+// c11Search: BFS to a fixpoint for one own index in c4.
+func c11Search(t *testing.T, res *report.Result, c4Idx int, backends []string, deadline time.Time) {
 	alpha := cAlphabet()
-	backends := []string{"memorydb"}
-	if res.Thorough() {
-		backends = append(backends, "leveldb")
-	}
-	deadline := report.Deadline()
-	w0 := newCWorld("memorydb")
+	// Every shard runs the search on memorydb (states and origins come from it); transition
+	// number t is counted, reported and run on the further backends by shard t mod n.
+	shard, nshards := report.Shard()
+	w0 := newCWorld("memorydb", c4Idx)
 	seen := map[string]bool{w0.canon(): true}
 	for _, v := range w0.check(nil, nil) {
-		res.Violate("C11", "C11:"+v.clause+":empty-store", v.detail, c11Replay{"store", "C11", res.Tier, "memorydb", []string{}, "", nil})
+		res.Violate("C11", "C11:"+v.clause+":empty-store", v.detail, c11Replay{"store", "C11", res.Tier, "memorydb", c4Idx, []string{}, "", nil})
 	}
-	frontier := [][]int{nil}
-	res.Count("states", 1)
-	maxDepth := 0
+	type node struct {
+		h   []int
+		org map[string]string
+	}
+	frontier := []node{{nil, map[string]string{}}}
+	if shard == 0 {
+		res.Count("states", 1)
+	}
+	nStates, nTrans, maxDepth := 1, 0, 0
 	for len(frontier) > 0 {
 		if !deadline.IsZero() && time.Now().After(deadline) {
 			res.Cap("C11: deadline reached with %d states in the frontier", len(frontier))
 			break
 		}
-		h := frontier[0]
+		cur := frontier[0]
 		frontier = frontier[1:]
-		base, _, _, err := cwalk("memorydb", alpha, h, nil)
-		if err != nil {
-			t.Fatalf("engine error: replay of a known history failed: %v", err)
+		h := cur.h
+		base := newCWorld("memorydb", c4Idx) // only the status of the channels is needed here
+		for _, k := range h {
+			if err := base.do(alpha[k]); err != nil {
+				t.Fatalf("engine error: replay of a known history failed: %v", err)
+			}
 		}
 		for oi, o := range alpha {
 			if !base.offered(o) {
 				continue
 			}
-			res.Count("transitions", 1)
+			mine := nTrans%nshards == shard
+			nTrans++
+			if mine {
+				res.Count("transitions", 1)
+			}
 			nh := append(append([]int{}, h...), oi)
 			var next *cworld
+			var nextOrg map[string]string
 			for _, be := range backends {
-				w, org, viols, err := cwalk(be, alpha, nh, nil)
-				rp := c11Replay{"store", "C11", res.Tier, be, cnames(alpha, h), o.name(), nil}
+				if be != "memorydb" && !mine {
+					continue
+				}
+				w, org, viols, err := cwalk(be, c4Idx, alpha, nh, cur.org, false, nil)
+				rp := c11Replay{"store", "C11", res.Tier, be, c4Idx, cnames(alpha, h), o.name(), nil}
 				if err != nil {
-					res.Violate("C11", "C11:operation-failed:"+o.kind, fmt.Sprintf("[%s] %v\n  history: %v", be, err, cnames(alpha, nh)), rp)
+					res.ViolateC("C11", "C11:operation-failed:"+o.kind, fmt.Sprintf("[%s, own index %d in c4] %v\n  history: %v", be, c4Idx, err, cnames(alpha, nh)), rp, len(nh))
 					w.close()
+					continue
+				}
+				if be == "memorydb" {
+					next, nextOrg = w, org
+				}
+				if !mine {
 					continue
 				}
 				res.Count("evaluations", 1)
 				for _, v := range viols {
-					by := org[v.clause]
-					if by != o.kind {
+					by, cost := org[v.clause], len(nh)
+					if _, inherited := cur.org[v.clause]; inherited {
 						res.Count("steps_inheriting_an_earlier_inconsistency", 1)
+						cost += 1000 // prefer the counterexample in which the inconsistency arises
 					}
-					res.Violate("C11", fmt.Sprintf("C11:%s:%s", v.clause, by), fmt.Sprintf("[%s] after %s (%s): %s\n  history: %v", be, o.name(), w.statusString(), v.detail, cnames(alpha, nh)), rp)
+					res.ViolateC("C11", fmt.Sprintf("C11:%s:%s", v.clause, by), fmt.Sprintf("[%s, own index %d in c4] after %s (%s): %s\n  history: %v", be, c4Idx, o.name(), w.statusString(), v.detail, cnames(alpha, nh)), rp, cost)
 				}
-				if be == "memorydb" {
-					next = w
-				} else {
+				if be != "memorydb" {
 					w.close()
 				}
 			}
@@ -495,36 +586,43 @@ func c11Run(t *testing.T, res *report.Result) {
 			key := next.canon()
 			if !seen[key] {
 				seen[key] = true
-				res.Count("states", 1)
+				if nStates%nshards == shard {
+					res.Count("states", 1)
+				}
+				nStates++
 				if len(nh) > maxDepth {
 					maxDepth = len(nh)
 				}
 				if len(nh) >= 3 {
 					res.Sample(6, map[string]interface{}{"check": "C11", "history": cnames(alpha, nh), "channels": next.statusString()})
 				}
-				frontier = append(frontier, nh)
+				frontier = append(frontier, node{nh, nextOrg})
 			}
 			next.close()
 		}
 		base.close()
 	}
-	res.Counters["max_depth"] = int64(maxDepth)
+	if int64(maxDepth) > res.Counters["max_depth"] {
+		res.Counters["max_depth"] = int64(maxDepth)
+	}
+	res.Note("C11, own index %d in the 10-party channel c4: alphabet {Create, Advance, Stage, Remove} x %d channels, backends %v, states=%d, transitions=%d, depth=%d", c4Idx, nChan, backends, nStates, nTrans, maxDepth)
+}
+
+func c11Run(t *testing.T, res *report.Result) {
+	backends, idxs := []string{"memorydb"}, []int{0}
+	if res.Thorough() {
+		backends, idxs = append(backends, "leveldb"), []int{0, maxParts - 1}
+	}
+	deadline := report.Deadline()
+	for _, c4Idx := range idxs {
+		c11Search(t, res, c4Idx, backends, deadline)
+	}
 	res.Counters["distinct_nontrivial"] = res.Counters["states"]
 	res.Counters["traces_validated_against_impl"] = res.Counters["transitions"]
 	if len(res.Caps) == 0 {
 		res.Extra["exhaustive"] = true
 	}
-	res.Extra["bound"] = "fixpoint over canonical states (status of each of 3 channels + canonical store digest); every order of the operations incl. create after remove"
-	res.Note("C11: alphabet %v x 3 channels, backends %v, states=%d, depth=%d", func() []string {
-		m, out := map[string]bool{}, []string{}
-		for _, o := range alpha {
-			if !m[o.kind] {
-				m[o.kind] = true
-				out = append(out, o.kind)
-			}
-		}
-		return out
-	}(), backends, len(seen), maxDepth)
+	res.Extra["bound"] = "fixpoint over canonical states (status of each of 4 channels + canonical store digest); every order of the operations incl. create after remove"
 }
 
 func c11ReplayRun(t *testing.T, res *report.Result, rp c11Replay) {
@@ -544,8 +642,8 @@ func c11ReplayRun(t *testing.T, res *report.Result, rp c11Replay) {
 		}
 		h = append(h, i)
 	}
-	fmt.Printf("C11 replay on %s\n", rp.Backend)
-	w, org, viols, err := cwalk(rp.Backend, alpha, h, func(s string) { fmt.Println(s) })
+	fmt.Printf("C11 replay on %s, own index %d in c4\n", rp.Backend, rp.C4Idx)
+	w, org, viols, err := cwalk(rp.Backend, rp.C4Idx, alpha, h, nil, true, func(s string) { fmt.Println(s) })
 	defer w.close()
 	if err != nil {
 		fmt.Printf("  VERDICT operation-failed: %v\n", err)
